@@ -27,7 +27,9 @@ RULE = ("per scenario (nine hand-written and seven emitted by the real SDK: recv
 ASSUMPTIONS = ["link layer delivers the responses of one (remote node, purpose, role) stream in sequence order; a creator-side response "
                "cannot precede the create_epr instruction that causes it; receiver-side responses may arrive at any time",
                "a keep-response names the lowest physical qubit not marked in use by the executor at delivery time",
-               "the scripted stack maps purpose id = EPR socket id"]
+               "the scripted stack maps purpose id = EPR socket id + 40 (the two must not be confused by the executor)"]
+
+PURPOSE = 40
 
 APP = 0
 LOCAL = 0
@@ -205,6 +207,7 @@ class World:
         self.sequential_reuse = name == "sdk-recv_keep-seq-post-2"
         self.ex = simctl.SimExecutor(name="ctrl", node_id=LOCAL, horizon=2000)
         self.stack = simctl.ScriptedStack()
+        self.stack.PURPOSE_OFFSET = PURPOSE      # purpose ids differ from socket ids: requests must be filed under the purpose id
         self.ex.network_stack = self.stack
         self.ex.init_new_application(app_id=APP, max_qubits=size)
         self.ex.poll_horizon = 10 ** 9
@@ -237,7 +240,7 @@ class World:
             if req.raddr is not None or len(self.issued) <= j:
                 continue
             qs = self.ex._epr_create_requests if req.role == "create" else self.ex._epr_recv_requests
-            lst = qs[(req.remote, req.socket)]
+            lst = qs.get((req.remote, req.socket + PURPOSE)) or []
             if not lst:
                 continue
             d = lst[-1]
@@ -323,11 +326,11 @@ class World:
             while phys in used:
                 phys += 1
             resp = LinkLayerOKTypeK(type=ReturnType.OK_K, create_id=uid, logical_qubit_id=phys, directionality_flag=flag,
-                                    sequence_number=1000 + uid, purpose_id=req.socket, remote_node_id=req.remote, goodness=2000 + uid,
+                                    sequence_number=1000 + uid, purpose_id=req.socket + PURPOSE, remote_node_id=req.remote, goodness=2000 + uid,
                                     goodness_time=3000 + uid, bell_state=BellState(k % 4))
         else:
             resp = LinkLayerOKTypeM(type=ReturnType.OK_M, create_id=uid, measurement_outcome=k % 2, measurement_basis=0,
-                                    directionality_flag=flag, sequence_number=1000 + uid, purpose_id=req.socket,
+                                    directionality_flag=flag, sequence_number=1000 + uid, purpose_id=req.socket + PURPOSE,
                                     remote_node_id=req.remote, goodness=2000 + uid, bell_state=BellState((k + 1) % 4))
         fields = [e.value if hasattr(e, "value") else e for e in resp]
         self.responses.append({"request": i, "pair": k, "fields": fields, "phys": fields[2] if req.tp == "K" else None, "type": req.tp})
